@@ -83,7 +83,7 @@ static void c07_case(const vector<Tpl> &T, int a, int b, int n, int code, int sz
         if (v > 1e-4) {
             bool excused = false; for (auto *u : ux) for (auto m : mine[k]) if (u->cc == m) excused = true; for (auto *u : uy) for (auto m : mine[k]) if (u->cc == m) excused = true;
             // makeFeasible() on its own reports through SubConstraintInfo::satisfied, not through the lists
-            if (mode == 2) for (auto m : mine[k]) for (auto *sc : m->_subConstraintInfo) if (!sc->satisfied) excused = true;
+            if (mode == 2 && (used.size() > 1 || overlap)) for (auto m : mine[k]) for (auto *sc : m->_subConstraintInfo) if (!sc->satisfied) excused = true;   // a single user constraint without overlap avoidance is always satisfiable: a flag cannot excuse it
             // known-finding class: overlap avoidance on, two user EQUALITY constraints that share an axis (Separation ==, Alignment,
             // Distribution, FixedRelative), this one violated and unreported while the OTHER one is named in the lists
             vector<string> kc = inClass;
@@ -167,6 +167,58 @@ static void c08_phase(int n, int hier, double pad, bool exempt, bool withSep, in
 }
 
 
+
+// ---- C07, histories on the SAME constraint objects ----------------------------------------------------------------------
+// makeFeasible / run / the user dragging nodes / a new layout object over the same rectangles and the same CompoundConstraint objects,
+// every sequence to the depth bound that ends with a layout call; after EVERY makeFeasible() and run() each user constraint must hold
+// (1e-4) or be reported (lists; for makeFeasible also SubConstraintInfo::satisfied == false).
+static void c07_history_case(const vector<Tpl> &T, int a, int b, int n, int code, const vector<int> &ops) {
+    static const char *ON[] = {"makeFeasible", "run", "drag(node0->(60,60),node1->(0,0))", "drag(node1->(5,5),node2->(5,5))", "new layout object"};
+    vpsc::Rectangles rs; int c = code; VD x0, y0;
+    for (int i = 0; i < n; i++) { double x = GRID[c % 3]; c /= 3; double y = GRID[c % 3]; c /= 3; rs.push_back(new vpsc::Rectangle(x - 10, x + 10, y - 10, y + 10)); x0.push_back(x); y0.push_back(y); }
+    vector<Edge> es; for (int i = 0; i + 1 < n; i++) es.push_back(Edge(i, i + 1));
+    CompoundConstraints ccs; vector<CompoundConstraint *> extra, mine[2]; vector<int> used = {a}; if (b != a) used.push_back(b);
+    for (size_t k = 0; k < used.size(); k++) { size_t e0 = extra.size(); CompoundConstraint *cc = T[used[k]].make(rs, extra); ccs.push_back(cc); mine[k].push_back(cc); for (size_t q = e0; q < extra.size(); q++) mine[k].push_back(extra[q]); }
+    for (auto e : extra) ccs.insert(ccs.begin(), e);
+    string desc = mcx::fmt("history on one set of constraint objects n=%d start:", n); for (int i = 0; i < n; i++) desc += mcx::fmt("(%g,%g)", x0[i], y0[i]);
+    desc += " constraints: [" + T[a].name + "]" + (b != a ? " + [" + T[b].name + "]" : "") + " ops:"; for (int o : ops) desc += string(" ") + ON[o];
+    ctx.announce(desc); UnsatisfiableConstraintInfos ux, uy; ConstrainedFDLayout *alg = nullptr;
+    try {
+        alg = new ConstrainedFDLayout(rs, es, 30); alg->setConstraints(ccs); alg->setUnsatisfiableConstraintInfo(&ux, &uy);
+        for (size_t k = 0; k < ops.size(); k++) {
+            int o = ops[k];
+            if (o == 2) { rs[0]->moveCentre(60, 60); rs[1]->moveCentre(0, 0); }
+            else if (o == 3) { rs[1]->moveCentre(5, 5); if (n > 2) rs[2]->moveCentre(5, 5); }
+            else if (o == 4) { delete alg; alg = new ConstrainedFDLayout(rs, es, 30); alg->setConstraints(ccs); alg->setUnsatisfiableConstraintInfo(&ux, &uy); }
+            else {
+                for (auto u : ux) delete u; for (auto u : uy) delete u; ux.clear(); uy.clear();
+                if (o == 0) alg->makeFeasible(); else alg->run();
+                ctx.count("transitions"); ctx.count("evaluations");
+                VD x, y; string pos; for (int i = 0; i < n; i++) { x.push_back(rs[i]->getCentreX()); y.push_back(rs[i]->getCentreY()); pos += mcx::fmt("(%g,%g)", x[i], y[i]); }
+                // FixedRelative templates refer to the centres at CONSTRUCTION of the constraint: x0,y0
+                for (size_t q = 0; q < used.size(); q++) { double v = T[used[q]].viol(x, y, x0, y0); if (v <= 1e-4) continue;
+                    bool excused = false; for (auto *u : ux) for (auto m : mine[q]) if (u->cc == m) excused = true; for (auto *u : uy) for (auto m : mine[q]) if (u->cc == m) excused = true;
+                    // makeFeasible() on its own reports through SubConstraintInfo::satisfied; but a SINGLE user constraint (no overlap avoidance) is
+                    // always satisfiable, so a flag cannot excuse it (otherwise 'nothing was even tried' would pass as 'everything was reported')
+                    if (o == 0 && used.size() > 1) for (auto m : mine[q]) for (auto *sc : m->_subConstraintInfo) if (!sc->satisfied) excused = true;
+                    if (excused) ctx.count("violated_and_reported");
+                    else ctx.violation(ux.empty() && uy.empty() ? "violated_without_report" : "violated_other_constraint_reported", {"history"}, desc, mcx::fmt("after op #%zu (%s): [%s] violated by %g; reported %zu+%zu; positions ", k, ON[o], T[used[q]].name.c_str(), v, ux.size(), uy.size()) + pos); }
+            }
+        }
+    } catch (vpsc::CriticalFailure &f) { ctx.library_abort(f.what(), desc); } catch (...) { ctx.library_abort("exception", desc); }
+    delete alg; for (auto r : rs) delete r; for (auto cc : ccs) delete cc; for (auto u : ux) delete u; for (auto u : uy) delete u;
+}
+static void c07_history_phase(int depth, int placementStep, int maxPair) {
+    vector<Tpl> T = templates(); int n = 3;
+    ctx.phase(mcx::fmt("C07 histories depth %d over {makeFeasible, run, drag A, drag B, new layout object} on the same constraint objects, every <=%d-subset of %zu templates x every %d-th of 729 placements", depth, maxPair, T.size(), placementStep));
+    vector<int> idx(depth, 0);
+    do { if (idx[depth - 1] > 1) continue; int lays = 0; for (int o : idx) if (o <= 1) lays++; if (depth > 1 && lays < 2 && idx[0] > 1 && depth == 2) { /* drag/new + one layout: still a history */ }
+        for (size_t a = 0; a < T.size(); a++) for (size_t b = a; b < T.size(); b++) { if (maxPair == 1 && b != a) continue; if (T[a].maxNode >= n || T[b].maxNode >= n) continue;
+            for (int code = 0; code < 729; code += placementStep) { if (!ctx.next()) continue; ctx.count("states"); ctx.count("nontrivial"); ctx.sample(mcx::fmt("history [%s]+[%s] code %d", T[a].name.c_str(), T[b].name.c_str(), code), 1); c07_history_case(T, a, b, n, code, idx); ctx.done_case(); }
+            if (ctx.stopped()) return; }
+    } while (mcx::odo_next(idx, 5) && !ctx.stopped());
+}
+
 // ---- C08, reconfiguration histories on ONE layout object --------------------------------------------
 // The overlap/exemption settings of a ConstrainedFDLayout can be changed between layouts.  Every sequence (to the depth bound) over
 // {avoid overlaps with exempt group {0,1}, avoid overlaps with no exemption, with exempt group {1,2}, makeFeasible+run} ending with
@@ -229,7 +281,8 @@ int main(int argc, char **argv) {
         for (int mode : {0, 1, 2, 4}) c07_phase(3, mode, false, false, mode < 2 ? 7 : 13, 2, 0, 2);
         c07_phase(3, 0, true, false, 13, 2, 5, 2); c07_phase(3, 0, false, true, 13, 3, 0, 2); c07_phase(3, 1, true, false, 29, 0, 2, 2); c07_phase(2, 0, false, false, 1, 1, 0, 2);
         c07_phase(4, 0, false, false, 97, 2, 0, 1);
-        c07_phase(3, 4, true, false, 13, 2, 0, 2); c07_phase(3, 4, true, false, 13, 3, 5, 2);   // ConstrainedMajorizationLayout with setAvoidOverlaps()
+        c07_phase(3, 4, true, false, 13, 2, 0, 2); c07_phase(3, 4, true, false, 13, 3, 5, 2);
+        c07_history_phase(2, 29, 1); c07_history_phase(3, 61, 1); c07_history_phase(2, 121, 2);   // ConstrainedMajorizationLayout with setAvoidOverlaps()
         if (T) { for (int mode : {0, 1, 2, 4}) c07_phase(3, mode, false, false, 1, 2, 0, 2); c07_phase(3, 0, true, false, 3, 3, 5, 2); c07_phase(3, 0, true, true, 5, 0, 7, 2); c07_phase(4, 0, false, false, 53, 2, 0, 2); c07_phase(4, 1, true, false, 53, 3, 9, 2); }
     } else {
         c08_phase(3, 0, 0, false, false, 1); c08_phase(3, 2, 0, false, false, 1); c08_phase(3, 0, 0, true, false, 1); c08_phase(3, 0, 0, false, true, 1);
